@@ -92,6 +92,9 @@ type CloseStep struct {
 
 // Plan is one generated case.
 type Plan struct {
+	// SlowLogUs > 0 (real clock): a log target is installed whose every line takes this long (a console, a network log
+	// sink): the client's goroutines stand still inside their diagnostic lines for that time
+	SlowLogUs int `json:"slow_log_us,omitempty"`
 	// Judge: "" = the job's own oracle; "order" = a plan of the C17 generator run inside another job (judged by the
 	// order oracle and the receiver model)
 	Judge string `json:"judge,omitempty"`
